@@ -62,6 +62,9 @@ func (c *timestampCache) Timestamp(ctx context.Context, req *pkcs9.Request) (*pk
 	if err == nil {
 		token, err := pkcs7.Unmarshal(item.Value)
 		if err == nil {
+			err = checkCached(token, req)
+		}
+		if err == nil {
 			metricHits.WithLabelValues("hit").Inc()
 			return token, nil
 		}
@@ -84,6 +87,16 @@ func (c *timestampCache) Timestamp(ctx context.Context, req *pkcs9.Request) (*pk
 		metricHits.WithLabelValues("miss").Inc()
 	}
 	return token, err
+}
+
+// a cached token is only as good as a fresh one: it must cover this signature
+func checkCached(token *pkcs7.ContentInfoSignedData, req *pkcs9.Request) error {
+	if req.Legacy {
+		_, err := pkcs9.VerifyMicrosoftToken(token, req.EncryptedDigest)
+		return err
+	}
+	_, err := pkcs9.Verify(token, req.EncryptedDigest, nil)
+	return err
 }
 
 func cacheKey(req *pkcs9.Request) string {
